@@ -14,6 +14,12 @@
 #ifndef IORA_TCP_ENV_H
 #define IORA_TCP_ENV_H
 
+/* a `do { } while (0)` inside a contract loop counts as an inner loop for the plain (non-DFCC) --apply-loop-contracts */
+#if !defined(IORA_CANARIES)
+#undef IORA_CANARY_LOOP
+#define IORA_CANARY_LOOP(msg) ((void)0)
+#endif
+
 typedef uint64_t SessionId;
 typedef int64_t MonoTime;
 typedef struct { int64_t ticks; } iora_duration;
@@ -63,6 +69,7 @@ typedef struct { uint32_t events; struct { int fd; } data; } epoll_event;
 /* ghost record of the last interest registration: the mask the kernel holds for G_ep_fd */
 int G_ep_fd; uint32_t G_ep_events; int G_ep_op; int G_ep_epfd; unsigned G_ep_mods, G_ep_dels;
 #ifndef IORA_NATIVE
+unsigned nondet_unsigned(void);
 /* int epoll_ctl(int epfd, int op, int fd, struct epoll_event *event): records what was registered. ENV: the call succeeds
  * (the code under contract ignores the result of EPOLL_CTL_MOD/DEL; a failing epoll_ctl on a registered fd is outside the model) */
 static inline int iora_epoll_ctl(int epfd, int op, int fd, epoll_event *ev)
@@ -74,5 +81,13 @@ static inline int iora_epoll_ctl(int epfd, int op, int fd, epoll_event *ev)
   return 0;
 }
 static inline MonoTime iora_mono_now(void) { MonoTime t; return t; }
+/* plain harnesses: CBMC gives _Bool fields of nondeterministic objects arbitrary BYTE values (2, 4, ...) whose truth value is then
+ * read inconsistently; make every _Bool field a proper nondeterministic boolean */
+static inline void iora_canon_session(Session *s)
+{ s->tlsWantWrite = nondet_bool(); s->wantWrite = nondet_bool(); s->closed = nondet_bool(); s->connectPending = nondet_bool(); }
+static inline void iora_canon_engine(TcpEngine *e)
+{ e->_config.closeOnBackpressure = nondet_bool(); e->_config.useEdgeTriggered = nondet_bool();
+  e->_cbs.onAccept = nondet_bool(); e->_cbs.onConnect = nondet_bool(); e->_cbs.onData = nondet_bool(); e->_cbs.onClose = nondet_bool(); e->_cbs.onError = nondet_bool();
+  e->_cbMutex.held = nondet_bool(); e->_sessionRwMutex.held = nondet_bool(); e->_sessions.has = nondet_bool(); e->_fdTags.has = nondet_bool(); }
 #endif
 #endif
